@@ -534,3 +534,32 @@ def certified_radius(a, tol=1e-11, max_iter=200000):
             break
         x = y / y.max()
     return lo - 1.0, hi - 1.0
+
+
+# ----------------------------------------------------------------------------------------------- big decimals
+# CPython refuses int(str) / str(int) beyond 4300 digits; the reference converts in chunks so that it never relies
+# on (and never changes) the interpreter-wide limit that the code under test also runs under.
+
+_CHUNK = 2000
+
+
+def dec_to_int(text):
+    value = 0
+    for i in range(0, len(text), _CHUNK):
+        part = text[i: i + _CHUNK]
+        value = value * (10 ** len(part)) + int(part)
+    return value
+
+
+def int_to_dec(value):
+    if value == 0:
+        return "0"
+    parts = []
+    base = 10 ** _CHUNK
+    while value:
+        value, rem = divmod(value, base)
+        parts.append(rem)
+    out = [str(parts[-1])]
+    for rem in reversed(parts[:-1]):
+        out.append(str(rem).zfill(_CHUNK))
+    return "".join(out)
